@@ -98,7 +98,15 @@ pub fn seed(rng: &mut Prng, id: u64, lengthless: bool) -> El {
             b = B::new(id, m, &path);
             extras(rng, &mut b);
             if !lengthless { b.h("Content-Length: 0"); }
-            label = if lengthless { format!("seed:{m}_lengthless") } else { format!("seed:{m}_cl0") };
+            let mut l = if lengthless { format!("seed:{m}_lengthless") } else { format!("seed:{m}_cl0") };
+            // a quarter of the length-less requests are HTTP/1.0 keep-alive requests: equally body-less
+            // (RFC 9112 6.3), and equally followed by whatever the client pipelines behind them
+            if lengthless && rng.below(4) == 0 {
+                b.line = format!("{m} {path} HTTP/1.0").into_bytes();
+                b.h("Connection: keep-alive");
+                l = format!("seed:{m}_lengthless_http10");
+            }
+            label = l;
         }
         3..=6 => {
             let m = *rng.pick(&["POST", "PUT", "POST", "PATCH"]);
